@@ -13,6 +13,9 @@ CHECKS = {
  'C05': ('factorize', 'seeded grammars + label-collision grammars + min_fill-suboptimal witnesses -> factorize_rule/hrg/fgg x 3 methods on real rules -> TLC judge (Trace_Factorize): fresh-nonterminal discipline, inlining up to isomorphism, width clauses with TLC treewidth DP; sum_products of the factorized FGG judged by Trace_SumProduct',
          'Every rule of 80+ (quick) / 770+ (thorough) seeded grammars (isolated nodes, several components, nullary/repeated-attachment edges, externals anywhere, up to 5 nodes) through all three entry points and methods; TLC inlines the fresh nonterminals and searches for an isomorphism with the original rule (exhaustive up to 6 nodes), checks no rule got wider and that exact methods reach treewidth+1 (treewidth by subset DP, witnesses of 7-8 nodes where min_fill is sub-optimal); the factorized FGG has the same sum-product (exact, nat carrier).',
          'Trusted: TLC, Factorize.tla + TreeDec.tla + Semantics.tla, the projection of rules (node ids to integers). Beyond 6 nodes only the identity-on-ids isomorphism is tried (uncertified otherwise, never an alarm).', 'DESIGN.md#c05'),
+ 'C06': ('axes', 'seeded typed patterns -> real PatternedTensors -> every operation of the class against torch on to_dense() -> TLC judge (Trace_Tensor): to_dense() equals the denotation PtDense computed by Axes.tla from the structure, results equal torch on dense, every result structure and (hook FGGS_VERIF) every PatternedTensor built inside the library satisfies the representation invariant; reshape/view obligations by MustReshape',
+         '22 (quick) / 160 (thorough) typed shapes x 3-4 patterns x ~45 unary, ~22 binary operations, where, stack, copy_, indexing, iteration, reshape/view targets (all adjacent merges, unit insertions, arbitrary factorizations), float64/float32/bool, contiguous and transposed physical layouts, defaults 0/1/5/+-inf/NaN; the denotation is computed by the specification (index arithmetic of nested product/sum axes), not by the library.',
+         'Trusted: TLC, Axes.tla, the float encoding round(1000 v) with tolerance 1+1e-5 relative (structural errors move values by far more), the structure read-back (paxes/vaxes/default/physical). Typed patterns only: sharing one physical axis between positions of different index types is the documented type mismatch and is excluded. Index types: numel<=6, depth<=2, <=3 axes.', 'DESIGN.md#c06'),
  'C08': ('semiring', 'TLC proves the laws on the carriers (MC_Semiring, R3) -> add/mul/sub/star/sum/from_int of the 4 semirings on all pairs/triples of carrier points, on Tensors and on PatternedTensors of 6 patterns -> TLC judge (Trace_Semiring) against the carrier operations',
          'All triples of carrier points (naturals incl. 0 and INF; integer log-weights incl. -INF/+INF; booleans; quarters for star) for every law, both dtypes, and all pairs of operand representations (dense, expanded, diagonal with default zero/one/INF, sum-axis embedding) for add/mul/sub.',
          'Trusted: TLC, Semiring.tla. The claim is restricted to the exact sub-carrier and the branch points of the closed forms: arbitrary finite floats (subnormals, huge values) cannot be enumerated by TLC and the laws do not hold bit-exactly under rounding.', 'DESIGN.md#c08'),
@@ -22,6 +25,9 @@ CHECKS = {
  'C12': ('builder', 'TLC builder machine (MC_Builder) generates construction schedules (-simulate; R3 Confluent) -> replayed on the real API on re-ordered / renamed / value-permuted presentations with explicit or implicit ids -> sum_products -> TLC judge (Trace_Present): observed = meaning(presented) and, model-level, meaning(presented) = renamed/permuted meaning(original)',
          '280 (quick) / 14 000 (thorough) TLC-generated construction schedules over presentations of seeded grammars: order of add_node/add_edge/add_rule/add_domain/add_factor/add_edge_label calls, rule/node/edge order, label renaming, domain-value permutation with factor axes, explicit vs implicit ids; 4 semirings, 3 methods, 2 dtypes; every result must equal the exact meaning of the presented grammar, which TLC proves to be the permuted meaning of the original.',
          'Trusted: TLC, Semantics.tla, the presentation generator (its correctness is itself checked by the model-level theorem: a wrong permutation makes the check fail as machinery error, exit 2). Non-recursive targets; gradients / viterbi weights under re-presentation are exercised through the C03/C04 oracles.', 'DESIGN.md#c12'),
+ 'C13': ('axes', 'seeded pairs of typed patterns (independent, re-patterned copies, one perturbed cell, differing defaults, NaN, clone/freshen/densified) and MultiTensors with absent blocks -> equal / allclose (tolerance grid) / equal_default / allclose_default / MultiTensor.allclose -> TLC judge (Trace_Tensor) decides each answer on the denotations PtDense computed from the structures',
+         'Every answer is recomputed by TLC from the two structures alone: dense equality, torch allclose rule |a-b| <= atol + rtol|b| in exact integer arithmetic (values are multiples of 1/4, tolerances dyadic), NaN per flag, symmetry of equal, absent MultiTensor block = zero.',
+         'Trusted: TLC, Axes.tla, the structure read-back. Bounded index types as in C06.', 'DESIGN.md#c13'),
  'C14': ('jsonfmt', 'seeded abstract grammars (mixed explicit/implicit ids, finite/range domains, dense + diagonal/expanded patterned weights, INF entries, unused labels) -> fgg_to_json / json.dumps / json_to_fgg / second trip and malformed variants on the real code -> TLC judge (Trace_Json): JSON object = abstract grammar up to renaming of implicit ids (isomorphism search per rule), round trip, verbatim second trip, ValueError exactly on out-of-range numbers',
          'Each JSON object the library writes is itself handed to TLC and compared with the abstract grammar: label tables, types, start, rules of every left-hand side in order up to isomorphism with explicit ids preserved, domains, factor weights; the object read back is compared the same way; every attachment/external position is overwritten with -n-1,-n,-1,0,n-1,n,n+1.',
          'Trusted: TLC, JsonFmt.tla, the projection of weight lists to [shape, flat] integers. json_to_weights of patterned specifications (physical/expand/vaxes/default) is covered by the Axes denotation in C06, not here.', 'DESIGN.md#c14'),
@@ -81,7 +87,7 @@ def build():
     return m
 
 
-HOOK_COMMITS = []
+HOOK_COMMITS = ['107ce0d']
 
 if __name__ == '__main__':
     m = build()
